@@ -3,6 +3,7 @@
    (Eval vm_compute in run [...]) need no per-family glue. *)
 From Coq Require Import ZArith NArith List.
 From Cqos Require Import Base RateConv Float64 Divider Sched Utils Join JoinSim Limit LimitSim Prio2 Prio2Sim.
+From Cqos Require Prio1 Prio1Sim.
 Import ListNotations.
 Open Scope Z_scope.
 
@@ -209,6 +210,54 @@ Definition run_prio2 (args : list Z) : list Z :=
   | _ => [-99]
   end.
 
+(* ---- family 8: v1 priority driver script (see Prio1Sim.v)
+   [divider; H; fuel; ocap; fixed; 2n; (priority channel)*n; 4m; (code a b settle)*m]
+   -> [0; per op: taken_p taken_x len(output) pending_cmds done k (dividend len ps..)*k ...; done; errcode]
+   channel ids >= 1000 are unbuffered.  v1 New never fails for a non-zero H (isValid only). *)
+Fixpoint quads (l : list Z) : list (Z * Z * Z * Z) :=
+  match l with a :: b :: c :: d :: r => (a, b, c, d) :: quads r | _ => [] end.
+Definition is_done1 (s : Prio1.st) : bool := match Prio1.pcs s with Prio1.Done _ => true | _ => false end.
+(* per channel the driver has used so far (ascending id): how many items the discipline took from it *)
+Fixpoint insert_nat (x : nat) (l : list nat) : list nat :=
+  match l with [] => [x] | y :: r => if Nat.ltb x y then x :: l else if Nat.eqb x y then l else y :: insert_nat x r end.
+Definition enc_consumed_ids (s : Prio1.st) (ids : list nat) : list Z :=
+  Z.of_nat (length ids) :: flat_map (fun ch => [Z.of_nat ch; Z.of_nat (length (Prio1.written s ch)) - Z.of_nat (length (Prio1.inq s ch))]) ids.
+Fixpoint run_ops1 (fixed : bool) (base : Divider) (fuel : nat) (known : list nat) (sm : Prio1Sim.psim) (ops : list (Z * Z * Z * Z)) : list Z * Prio1Sim.psim :=
+  match ops with
+  | [] => ([], sm)
+  | (code, a, b, stl) :: r =>
+      let before := length (Prio1.calls (Prio1Sim.ps_st sm)) in
+      let '(sm1, (tp, tx)) := Prio1Sim.apply_op fixed base fuel sm code a b (negb (stl =? 0)) in
+      let s1 := Prio1Sim.ps_st sm1 in
+      let seg := rev (firstn (length (Prio1.calls s1) - before) (Prio1.calls s1)) in
+      let known1 := if orb (code =? 1) (orb (code =? 2) (code =? 8)) then insert_nat (Z.to_nat a) known else known in
+      let '(rest, smf) := run_ops1 fixed base fuel known1 sm1 r in
+      ([Z.of_N tp; Z.of_N tx; Z.of_nat (length (Prio1.outq s1)); (if is_done1 s1 then 0 else Z.of_nat (length (Prio1.cmds s1))); bool_z (is_done1 s1);
+        Z.of_nat (length seg)] ++ flat_map enc_call seg ++ enc_consumed_ids s1 known1 ++ rest, smf)
+  end.
+Definition run_prio1 (args : list Z) : list Z :=
+  match args with
+  | kind :: h :: fuel :: ocap :: fixed :: r =>
+      if h =? 0 then [-2] else
+      let '(pc, r1) := take_list r in
+      let '(ops, _) := take_list r1 in
+      let cfg := map (fun x => (Z.to_N (fst x), Z.to_nat (snd x))) (pairs pc) in
+      let base := divider_of kind in
+      let fx := negb (fixed =? 0) in
+      let s0 := Prio1.init_state (fun _ => base) cfg (Z.to_N h) (fun ch => Nat.ltb ch 1000) (Z.to_N ocap) in
+      let s1 := Prio1Sim.sched_run fx (fun _ => base) (Z.to_nat fuel) false None s0 in
+      let '(out, smf) := run_ops1 fx base (Z.to_nat fuel) (fold_right insert_nat [] (map snd cfg)) (Prio1Sim.mkPsim s1 [] 1 None) (quads ops) in
+      let fin := match Prio1.pcs (Prio1Sim.ps_st smf) with
+                 | Prio1.Done None => [1; 0]
+                 | Prio1.Done (Some (Prio1.EDiv DividerBad)) => [1; 1]
+                 | Prio1.Done (Some Prio1.EQuantityExceeded) => [1; 2]
+                 | Prio1.Done (Some (Prio1.EDiv SumOverflow)) => [1; 3]
+                 | _ => [0; -1]
+                 end in
+      0 :: out ++ fin
+  | _ => [-99]
+  end.
+
 Definition run (args : list Z) : list Z :=
   match args with
   | 1 :: which :: rest => run_rate which rest
@@ -218,5 +267,6 @@ Definition run (args : list Z) : list Z :=
   | 5 :: rest => run_join rest
   | 6 :: rest => run_limit rest
   | 7 :: rest => run_prio2 rest
+  | 8 :: rest => run_prio1 rest
   | _ => [-999]
   end.
